@@ -107,7 +107,7 @@ def check(pid, tier, seed, a):
     # ---------------------------------------------------------------- deductive part
     results = []
     obls = []
-    for key in P.get("contracts", []):
+    for key in (P["contracts_fn"]() if "contracts_fn" in P else P.get("contracts", [])):
         variant = "default"
         if "@" in key:
             key, variant = key.split("@")
